@@ -243,13 +243,15 @@ Proof.
 Qed.
 
 Example C12_accounting_closed_example :
-  reachable_closed (run ex_one [ORestore ex_store; OReplaceFailed 1 (Some 6)]) /\
-  map fst (free_proxies (run ex_one [ORestore ex_store; OReplaceFailed 1 (Some 6)])) = [4].
+  reachable_closed ex_closed /\ map fst (free_proxies ex_closed) = [4] /\
+  map (fun nc => cluster_proxies (snd nc)) (st_clusters ex_closed) = [[6; 3; 5; 2]].
 Proof.
-  split; [|vm_compute; reflexivity].
+  split; [|vm_compute; split; reflexivity].
   assert (H : forall ops, forallb not_restore ops = true -> reachable_closed (run (init_store false) ops)).
   { intros ops Hn. apply reachable_closed_run; [apply rc_init|apply no_restore_closed; exact Hn]. }
-  apply reachable_closed_run; [apply (H (ex_proxies ++ [OAddCluster 1 4 1 [(1, 3)]])); reflexivity|].
-  apply Forall_cons; [|apply (no_restore_closed [OReplaceFailed 1 (Some 6)]); reflexivity].
-  intros snap E. injection E as <-. apply (H ex_ops). reflexivity.
+  unfold ex_closed. apply (reachable_closed_run ex_closed_ops (init_store false) (rc_init false)).
+  unfold ex_closed_ops.
+  repeat (apply Forall_cons; [intros snap E; discriminate E|]).
+  apply Forall_cons; [intros snap E; injection E as <-; unfold ex_store; exact (H ex_ops eq_refl)|].
+  exact (no_restore_closed [OReplaceFailed 1 (Some 6)] eq_refl).
 Qed.
